@@ -353,6 +353,9 @@ def run_customize(req):
 
 # ------------------------------------------------------------------------------------ (iv) IdentityDict
 
+DEFAULTS = [None, 0, False, "", (), "DEFAULT", Ellipsis, NotImplemented]
+
+
 class EqAll:
     """instances are all == each other, with equal hashes"""
 
@@ -430,11 +433,29 @@ def run_identitydict(req):
                 except KeyError:
                     if i is not None:
                         obs.append({"kind": "del_present_failed", "op": op})
+            elif t == "getdef":
+                # Mapping.get(key, default) with defaults that are falsy / None / the "no default" look-alikes
+                i = find(k)
+                dflt = DEFAULTS[op[2] % len(DEFAULTS)]
+                try:
+                    v = d.get(k, dflt)
+                except BaseException as ex:
+                    obs.append({"kind": "get_with_default_raised", "op": op, "exc": repr(ex)})
+                    continue
+                if (v is not dflt) if i is None else (v != model[i][1]):
+                    obs.append({"kind": "get_with_default", "op": op, "got": repr(v)})
             elif t == "pop":
                 i = find(k)
-                v = d.pop(k, "DEFAULT")
+                dflt = DEFAULTS[op[2] % len(DEFAULTS)] if len(op) > 2 else "DEFAULT"
+                try:
+                    v = d.pop(k, dflt)
+                except BaseException as ex:
+                    obs.append({"kind": "pop_with_default_raised", "op": op, "default": repr(dflt), "exc": repr(ex)})
+                    if i is not None:
+                        model.pop(i)
+                    continue
                 if i is None:
-                    if v != "DEFAULT":
+                    if v is not dflt:
                         obs.append({"kind": "pop_absent", "op": op, "got": v})
                 else:
                     if v != model[i][1]:
